@@ -9,9 +9,13 @@ def cmp_rules(idx, nmsg, extra=()):
         {"name": "using namespace std", "re": r"using namespace std;", "sub": "", "min": 1},
         {"name": "drop log text (msgLog += / .append)", "re": r"this->msgLog(?: \+=|\.append\().*?;", "sub": "", "min": nmsg},
         {"name": "drop message-only percentage", "re": r"(?<!float )errorLinesPercent = \([^;]*;", "sub": "", "min": 1, "max": 1},
-        {"name": "row count", "re": r"this->c1->getValues\(\)\.size\(\)", "sub": "n", "min": 1},
-        {"name": "c1 row", "re": r"this->c1->getValues\(\)(?:\[%s\]|\.at\(%s\))" % (idx, idx), "sub": "A[%s]" % idx, "min": 1},
-        {"name": "c2 row", "re": r"this->c2->getValues\(\)(?:\[%s\]|\.at\(%s\))" % (idx, idx), "sub": "B[%s]" % idx, "min": 1},
+        {"name": "column c1 -> A", "re": r"this->c1->getValues\(\)", "sub": "A_", "min": 1},
+        {"name": "column c2 -> B", "re": r"this->c2->getValues\(\)", "sub": "B_", "min": 1},
+        {"name": "row count", "re": r"[AB]_\.size\(\)", "sub": "n", "min": 1},
+        {"name": "row access [i] / .at(i)", "re": r"([AB])_(?:\[([^\]]+)\]|\.at\(([^)]+)\))", "sub": lambda m: "%s[%s]" % (m.group(1), m.group(2) or m.group(3)), "min": 2},
+        {"name": "row access .front()", "re": r"([AB])_\.front\(\)", "sub": r"\1[0]"},
+        {"name": "row access .back()", "re": r"([AB])_\.back\(\)", "sub": r"\1[n - 1]"},
+        {"name": "no unmapped column access may remain", "forbid": r"[AB]_\b"},
         {"name": "legend line offset", "re": r"this->c2->getData\(\)->getLegends\(\)\.empty\(\)", "sub": "legends_empty", "min": 1},
         {"name": "members", "re": r"this->(prec|precision2|interpolationIsConform)\b", "sub": r"\1", "min": 1},
         {"name": "success flag", "re": r"this->success\b", "sub": "g_success", "min": 1, "max": 1},
@@ -39,7 +43,7 @@ BODIES_C = [
     dict(name="RelativeComparison_compare", file=T + "RelativeComparison.cxx", pattern=r"void RelativeComparison::compare\(\)", rules=cmp_rules("index", 8)),
     dict(name="RelativeAndAbsoluteComparison_compare", file=T + "RelativeAndAbsoluteComparison.cxx", pattern=r"void RelativeAndAbsoluteComparison::compare\(\)", rules=cmp_rules("index", 8)),
     dict(name="MixedComparison_compare", file=T + "MixedComparison.cxx", pattern=r"void MixedComparison::compare\(\)",
-         rules=cmp_rules("index", 8, extra=[{"name": "const auto va/vb", "re": r"const __typeof__\((A|B)\[index\]\) (v[ab]) =", "sub": r"const double \2 ="}])),
+         rules=cmp_rules("index", 8, extra=[{"name": "const auto va/vb", "re": r"const __typeof__\((?:A|B)\[[^\]]*\]\) (v[ab]) =", "sub": r"const double \1 ="}])),
 ]
 BODIES_M = [
     dict(name="AnalyticalTest_check", file="mtest/src/AnalyticalTest.cxx", pattern=r"void AnalyticalTest::check\(const CurrentState& s,",
@@ -75,7 +79,9 @@ BODIES_R = [
     dict(name="MixedComparison_row", file=T + "MixedComparison.cxx", pattern=r"void MixedComparison::compare\(\).*?for (?=\(vector<double>::size_type index\b)", rules=row_rules("index")),
 ]
 LBL = ["success-implies-every-row-finite-and-within-tolerance", "failure-only-if-some-row-is-out-of-tolerance"]
-JOBS = [Job(b["name"], "comparisons.c.in", enforce=b["name"], bodies=BODIES_C, loop_contracts=True, min_obligations=5, expect_labels=LBL, backend=FP, needs=[b["name"]]) for b in BODIES_C]
+# one SMT query per job (--stop-on-fail): on a broken tree CBMC otherwise re-queries the solver once per failing property, and each
+# floating-point counterexample search is slow; the vacuity probe runs as a separate single-property query
+JOBS = [Job(b["name"], "comparisons.c.in", enforce=b["name"], bodies=BODIES_C, loop_contracts=True, min_obligations=5, expect_labels=LBL, backend=FP, needs=[b["name"]], stop_on_fail=True, timeout=400) for b in BODIES_C]
 JOBS += [Job(b["name"], "rows.c.in", enforce=b["name"], bodies=BODIES_R, min_obligations=2, backend=FP, needs=["eps_decl", b["name"]],
              expect_labels=["row-accepted-iff-finite-and-within-tolerance", "failing-row-recorded"]) for b in BODIES_R[1:]]
 JOBS += [Job(b["name"], "mtest.c.in", enforce=b["name"], bodies=BODIES_M, min_obligations=2, backend=FP, needs=[b["name"]],
